@@ -312,6 +312,16 @@ def connect_failure_case(ctx, workdir: str, name: str, file_state: str) -> None:
                       case)
 
 
+async def _until_body_parked(state: dict, k: int) -> None:
+    """Loop iterations until the session body has made its change (bounded; entry takes a few iterations of file I/O)."""
+    for _ in range(2000):
+        if "final" in state:
+            break
+        await asyncio.sleep(0)
+    for _ in range(k % 4):
+        await asyncio.sleep(0)
+
+
 def cancelled_exit_case(ctx, workdir: str, transport_kind: str, k: int, how: str, file_state: str) -> None:
     """The task running `async with Gateway` is cancelled (task.cancel() / asyncio.timeout) while inside the body:
     the context is left through CancelledError / TimeoutError - an exception like any other: transport disconnected,
@@ -341,9 +351,25 @@ def cancelled_exit_case(ctx, workdir: str, transport_kind: str, k: int, how: str
         observed = None
         if how == "cancel":
             task = asyncio.ensure_future(session())
-            for _ in range(k + 6):
-                await asyncio.sleep(0)
+            if k % 2 or k > 8:
+                await _until_body_parked(state, k)
+            else:
+                for _ in range(k + 6):  # lands inside the entry (load / first save / connect)
+                    await asyncio.sleep(0)
             task.cancel()
+            try:
+                await task
+            except BaseException as exc:  # noqa: BLE001
+                observed = exc
+        elif how.startswith("cancel-all"):
+            # the application shuts down by sweeping asyncio.all_tasks() (a signal handler, asyncio.run's own teardown when
+            # the session is not the main task): the library's background tasks are cancelled together with the session
+            task = asyncio.ensure_future(session())
+            await _until_body_parked(state, k)
+            others = [t for t in asyncio.all_tasks() if t not in before and t is not task and t is not asyncio.current_task()]
+            state["swept"] = len(others)
+            for t in ([*others, task] if how == "cancel-all-library-first" else [task, *others]):
+                t.cancel()
             try:
                 await task
             except BaseException as exc:  # noqa: BLE001
@@ -379,9 +405,20 @@ def cancelled_exit_case(ctx, workdir: str, transport_kind: str, k: int, how: str
         return
     state = result["state"]
     if not state.get("entered") or "final" not in state:
+        # the cancellation arrived while the context was still being entered: nothing was promised about the file, but the
+        # cancellation propagates and nothing of the library stays behind
         ctx.obs("cancelled-before-body-finished-setup")
+        ctx.clause("cancelled-during-entry")
+        if not isinstance(result["observed"], (asyncio.CancelledError, TimeoutError)):
+            ctx.violation("cancellation-not-propagated", f"{how} during entry: the session ended with "
+                                                         f"{type(result['observed']).__name__}", case)
+        if result["leftovers"]:
+            ctx.violation("task-left-after-exit", f"{how} during entry (k={k}): tasks left {result['leftovers']}", case)
         return
-    want = asyncio.CancelledError if how == "cancel" else TimeoutError
+    want = asyncio.CancelledError if how.startswith("cancel") else TimeoutError
+    if how.startswith("cancel-all"):
+        ctx.clause("exit-through-task-sweep")
+        ctx.obs(f"library-tasks-swept:{state.get('swept')}")
     if not isinstance(result["observed"], want):
         ctx.violation("cancellation-not-propagated", f"{how}: the session ended with {type(result['observed']).__name__}", case)
     if result["leftovers"]:
@@ -568,7 +605,7 @@ def builtin_connect_failure_case(ctx, workdir: str, name: str) -> None:
             observed = exc
         await asyncio.sleep(0)
         left = [t for t in asyncio.all_tasks() if t not in before and t is not asyncio.current_task() and not t.done()
-                and "_handle_incoming" not in repr(t) and "reference" not in repr(t)]
+                and "reference" not in repr(t)]
         out = {"reference": reference, "observed": observed, "leftovers": [repr(t)[:160] for t in left]}
         for t in [t for t in asyncio.all_tasks() if t is not asyncio.current_task()]:
             t.cancel()
@@ -1842,7 +1879,7 @@ def run(ctx) -> None:
             if ctx.shard_index == (2 % ctx.shard_count):
                 many_sessions_case(ctx, workdir, ctx.pick(40, 1500))
             for transport in ("scripted", "mqtt-fake"):
-                for how in ("cancel", "timeout"):
+                for how in ("cancel", "timeout", "cancel-all-library-first", "cancel-all-session-first"):
                     for k in (0, 1, 2, 3, 5, 8, 13, 30):
                         for file_state in ("missing", "present"):
                             if ctx.mine():
